@@ -601,6 +601,7 @@ pub fn run(cfg: &Cfg) -> Stats {
     };
     let bf: &ByteCheck<'_> = &byte_f;
     let mut d = Driver::new(bf);
+    d.first(&crate::props::spaces::sanitisation_slips(crate::props::spaces::SLIP_BASES_LANGID));
     let alpha = gen::langid_alphabet();
     for k in 1..=cfg.pick(3, 4) {
         d.enumerate(&format!("langid alphabet ({} tokens), {k} subtags, '-'", alpha.len()), &alpha, k, b'-', b"");
